@@ -284,6 +284,29 @@ func (env *Env) eval(x Expr) (*Val, error) {
 			return nil, fmt.Errorf("bad array update %s", exprString(x))
 		}
 		return &Val{L: []Sc{{"(store " + a.L[0].T + " " + i.L[0].T + " " + v.L[0].T + ")", a.L[0].S}}}, nil
+	case *ESlice:
+		a, err := env.eval(x.X)
+		if err != nil {
+			return nil, err
+		}
+		if a.T == nil || len(a.L) != 4 {
+			return nil, fmt.Errorf("slice expression on a non-slice value %s", exprString(x.X))
+		}
+		if _, ok := a.T.Underlying().(*types.Slice); !ok {
+			return nil, fmt.Errorf("slice expression on a non-slice value %s", exprString(x.X))
+		}
+		lo, hi := "0", a.L[2].T
+		if x.Lo != nil {
+			if lo, err = env.evalInt(x.Lo); err != nil {
+				return nil, err
+			}
+		}
+		if x.Hi != nil {
+			if hi, err = env.evalInt(x.Hi); err != nil {
+				return nil, err
+			}
+		}
+		return &Val{T: a.T, L: []Sc{a.L[0], {addT(a.L[1].T, lo), "Int"}, {"(- " + hi + " " + lo + ")", "Int"}, {"(- " + a.L[3].T + " " + lo + ")", "Int"}}}, nil
 	case *EQuant:
 		n := *env
 		n.vars = copyVals(env.vars)
@@ -303,9 +326,11 @@ func (env *Env) eval(x Expr) (*Val, error) {
 		nq := len(e.qbound)
 		for _, v := range x.Vars {
 			e.qbound = append(e.qbound, n.vars[v.Name].L[0].T)
+			e.qscope = append(e.qscope, [2]string{n.vars[v.Name].L[0].T, n.vars[v.Name].L[0].S})
 		}
 		b, err := n.evalBool(x.Body)
 		e.qbound = e.qbound[:nq]
+		e.qscope = e.qscope[:len(e.qscope)-len(x.Vars)]
 		if err != nil {
 			return nil, err
 		}
@@ -789,11 +814,23 @@ func (env *Env) evalCall(x *ECall) (*Val, error) {
 				case *types.Basic:
 					if u.Info()&types.IsString != 0 {
 						e.declFun("strlen", []string{"Str"}, "Int")
+						e.assert("(<= 0 (strlen " + v.L[0].T + "))")
 						return mathVal("(strlen "+v.L[0].T+")", "Int"), nil
 					}
 				}
 			}
 			return nil, fmt.Errorf("len of %s not supported", exprString(x.Args[0]))
+		case "cap":
+			if _, shadow := env.vars["cap"]; !shadow && len(x.Args) == 1 {
+				v, err := env.eval(x.Args[0])
+				if err != nil {
+					return nil, err
+				}
+				if v.T == nil || len(v.L) != 4 {
+					return nil, fmt.Errorf("cap() needs a slice")
+				}
+				return mathVal(v.L[3].T, "Int"), nil
+			}
 		case "base", "off":
 			if _, shadow := env.vars[id.Name]; !shadow && len(x.Args) == 1 {
 				v, err := env.eval(x.Args[0])
@@ -1297,6 +1334,21 @@ func (env *Env) havocTarget(st *State, x Expr) error {
 			return nil
 		}
 	case *ECall:
+		if id, ok := x.Fun.(*EIdent); ok && id.Name == "fieldof" && len(x.Args) == 2 {
+			tl, ok1 := x.Args[0].(*ETypeLit)
+			fn, ok2 := x.Args[1].(*EIdent)
+			if ok1 && ok2 {
+				keys, err := e.fieldKeys(tl.T, fn.Name, env.pkgPath, env.imports)
+				if err != nil {
+					return err
+				}
+				for _, k := range keys {
+					e.heapGet(st, k[0], k[1])
+					e.heapHavoc(st, k[0])
+				}
+				return nil
+			}
+		}
 		if id, ok := x.Fun.(*EIdent); ok && len(x.Args) == 1 {
 			switch id.Name {
 			case "elems":
@@ -1424,10 +1476,52 @@ func (e *Enc) bytesOf(st *State, v *Val) (*Val, error) {
 	if b, ok := sl.Elem().Underlying().(*types.Basic); !ok || b.Kind() != types.Uint8 {
 		return nil, fmt.Errorf("bytes() needs a []byte value")
 	}
+	h := e.heapGet(st, "S|"+typeStr(sl.Elem())+"|", "(Array Int (Array Int Int))")
+	return &Val{L: []Sc{{e.bseqTerm("(select "+h+" "+v.L[0].T+")", v.L[1].T, v.L[2].T), "Bytes"}}}, nil
+}
+
+// bseqTerm: the abstract content of the window [off, off+ln) of a byte backing array. When the prelude declares the
+// sequence vocabulary (ghost funcs blen / bempty / b1, see prelude 40_cpc_bytes.spec) the facts that tie a window to it
+// are asserted for this instance: its length, the empty window, the one-byte window.
+func (e *Enc) bseqTerm(arr, off, ln string) string {
 	e.declSort("Bytes")
 	f := e.declFun("bseq", []string{"(Array Int Int)", "Int", "Int"}, "Bytes")
-	h := e.heapGet(st, "S|"+typeStr(sl.Elem())+"|", "(Array Int (Array Int Int))")
-	return &Val{L: []Sc{{"(" + f + " (select " + h + " " + v.L[0].T + ") " + v.L[1].T + " " + v.L[2].T + ")", "Bytes"}}}, nil
+	t := "(" + f + " " + arr + " " + off + " " + ln + ")"
+	if e.bseqSeen == nil {
+		e.bseqSeen = map[string]bool{}
+	}
+	if e.bseqSeen[t] || len(e.boundIn(t)) > 0 {
+		// (no instance facts for windows that mention a quantified variable: they would have to be asserted as
+		// quantified facts, which costs the solvers more than it helps)
+		return t
+	}
+	e.bseqSeen[t] = true
+	if g, ok := e.DB.Ghosts["blen"]; ok && len(g.Params) == 1 && g.Body == nil {
+		if n, _, err := e.ghostSymbol(g); err == nil {
+			e.assert("(= (" + n + " " + t + ") " + ln + ")")
+		}
+	}
+	if g, ok := e.DB.Ghosts["bempty"]; ok && len(g.Params) == 0 && g.Body == nil {
+		if n, _, err := e.ghostSymbol(g); err == nil {
+			e.assert(implies(eq(ln, "0"), eq(t, n)))
+		}
+	}
+	if g, ok := e.DB.Ghosts["b1"]; ok && len(g.Params) == 1 && g.Body == nil {
+		if n, _, err := e.ghostSymbol(g); err == nil {
+			e.assert(implies(eq(ln, "1"), eq(t, "("+n+" (select "+arr+" "+off+"))")))
+		}
+	}
+	return t
+}
+
+// bcatFact: after append(s, t...) on byte slices the content of the result is the concatenation of the contents of
+// s and t (only when the prelude declares ghost func bcat).
+func (e *Enc) bcatFact(res, s, t string) {
+	if g, ok := e.DB.Ghosts["bcat"]; ok && len(g.Params) == 2 && g.Body == nil {
+		if n, _, err := e.ghostSymbol(g); err == nil {
+			e.assert(eq(res, "("+n+" "+s+" "+t+")"))
+		}
+	}
 }
 
 // contentOf: abstract content of a slice value (any element type) in state st.
@@ -1547,6 +1641,32 @@ func selectPatterns(body string, vars []string) []string {
 	}
 	if len(out) > 6 {
 		return nil
+	}
+	if len(out) == 0 && len(vars) > 1 {
+		// no single term mentions every bound variable: one multi-pattern made of an innermost select term per variable
+		var multi []string
+		for _, v := range vars {
+			c := selectPatterns(body, []string{v})
+			// prefer a term that mentions no other bound variable
+			pick := ""
+			for _, t := range c {
+				clean := true
+				for _, w := range vars {
+					if w != v && strings.Contains(t, w) {
+						clean = false
+					}
+				}
+				if clean {
+					pick = t
+					break
+				}
+			}
+			if pick == "" {
+				return nil
+			}
+			multi = append(multi, pick)
+		}
+		return []string{strings.Join(multi, " ")}
 	}
 	return out
 }
